@@ -10,6 +10,8 @@ if variant == 'b':
     EXTRA = (" IMPORTANT for this round: both changes must be made inside the source file of ONE SPECIFIC optimizer each (a file under pyvolutionary/<algorithm_name>/, two different algorithms), preferably in a rarely executed branch, a boundary case of that algorithm's own arithmetic, or its handling of its private state - NOT in abstract.py, helpers.py, models.py, hypertuner.py or multitask.py. Avoid the simplest ideas (deleting a call to the correction/clipping step, flipping the comparison of a sort).")
 if variant == 'c':
     EXTRA = (" IMPORTANT for this round: prefer changes that only manifest in mode='thread' or mode='process' (a particular completion order of pooled evaluations, worker count, state shared between workers, what is or is not copied into a worker process), or only after a particular SEQUENCE of calls on the same objects (reuse of optimizer / task / configuration / tuner objects).")
+if variant == 'd':
+    EXTRA = (" IMPORTANT for this round: both changes must need an unusual but VALID INPUT to manifest, not a call sequence: e.g. a particular variable mix (binary next to continuous, a multi-variable of size 1, a permutation, discrete choices of heterogeneous types), extreme but finite bounds (offsets of 1e6 with width 1, widths of 1e-3, one bound exactly 0), dimension 1, multi-objective weights containing a zero, tie-heavy or constant objectives, objectives taking both signs, an integer seed at the edge of the accepted range, population sizes that are not multiples of 2/3/4/5. Ordinary symmetric-box continuous tasks must keep working exactly as before.")
 print(f"""You are helping to evaluate a verification effort for the open-source Python library `pyvolutionary` (about 80 nature-inspired metaheuristic optimizers sharing a common population/selection loop in pyvolutionary/abstract.py, helpers in helpers.py, pydantic variable/task models in models.py, HyperTuner and Multitask utilities). Your job is to play the role of a developer who introduces a realistic, subtle bug.
 
 Your private scratch copy of the repository is the git worktree `{wt}` (work ONLY there; never touch /repo or /verif, and do not read /verif). Python is `/venv/bin/python`; run things as `cd {wt} && PYTHONPATH={wt} /venv/bin/python ...` so that the worktree copy of the package is imported (check `pyvolutionary.__file__` once). There is no network.
